@@ -162,11 +162,13 @@ Proof. vm_compute. repeat split; reflexivity. Qed.
 
 Example C34_nonvacuous_ids_ok : ids_ok (rs_iter [SRange 0 10; SSorted (EU16 100 [0; 7; 9])]).
 Proof.
+  assert (Hsmall : Forall (fun v => v < 200) (rs_iter [SRange 0 10; SSorted (EU16 100 [0; 7; 9])])).
+  { vm_compute. repeat (constructor; [reflexivity|]). constructor. }
   split; [|split].
-  - vm_compute. repeat (constructor; [cbn [In]; intuition discriminate|]). constructor.
-  - vm_compute. repeat constructor.
-  - intros x y Hx Hy. vm_compute in Hx, Hy. change (2 ^ 62 - 6) with 4611686018427387898.
-    repeat (destruct Hx as [<- | Hx]; [repeat (destruct Hy as [<- | Hy]; [vm_compute; reflexivity|]); destruct Hy|]). destruct Hx.
+  - apply sincr_NoDup. apply strict_sorted_sincr. vm_compute. reflexivity.
+  - eapply Forall_impl; [|exact Hsmall]. intros a Ha. unfold u64max, two64. lia.
+  - intros x y Hx Hy. rewrite Forall_forall in Hsmall. pose proof (Hsmall y Hy).
+    change (2 ^ 62 - 6) with 4611686018427387898. lia.
 Qed.
 
 Example C34_nonvacuous_m2o :
